@@ -77,7 +77,10 @@ Section WithClen.
     exists evs, recover clen 1%N owner2 im = (evs, StartOk)
       /\ map fst (i_wals (apply_events im evs)) = [1%N]
       /\ Recovered (i_files (apply_events im evs)) (cs_all c) (cs_cur c)
-      /\ (no_pnew (i_files im) -> no_pnew (i_files (apply_events im evs))).
+      /\ (no_pnew (i_files im) -> no_pnew (i_files (apply_events im evs)))
+      (* recovery = executing the unchecked TGs, in ascending id order, on the crash-time files *)
+      /\ i_files (apply_events im evs) = fapplys (i_files im) (fexec clen (i_files im) (cmds_of (cs_cur c)))
+      /\ (exists lo, incr_from lo (cs_cur c)).
 
   Lemma crash_clean im wf fs0 rs owner G cur p :
     one_wal im wf -> wal_shape wf fs0 rs owner cur -> FClean (i_files im) (G ++ cur) ->
@@ -86,9 +89,12 @@ Section WithClen.
     intros Hone Hsh Hc. pose proof Hc as [Hv Hok _ _].
     rewrite cmds_of_app in Hok. apply all_ok_app in Hok as [_ Hokc].
     destruct (recover_exact clen clen_pos im wf fs0 rs owner cur owner2 Hone Hsh Hv Hokc) as (evs & Hr & Hf & Hk).
-    exists evs. split; [exact Hr|]. split; [exact Hk|]. cbn [cs_all cs_cur]. rewrite Hf. split.
+    exists evs. split; [exact Hr|]. split; [exact Hk|]. cbn [cs_all cs_cur]. rewrite Hf.
+    split; [|split; [|split]].
     - apply (recovered_clean clen clen_pos). exact Hc.
     - intros Hn. apply no_pnew_writes; [|exact Hn]. apply (fexec_ok clen clen_pos); assumption.
+    - reflexivity.
+    - destruct Hsh as [_ _ _ (its & lo & _ & Hi & _) _]. exists lo. exact Hi.
   Qed.
 
   Lemma crash_partial im wf fs0 rs owner G cur t p :
@@ -99,9 +105,12 @@ Section WithClen.
     assert (Hokc : all_ok (i_files im) (cmds_of (cur ++ [t]))).
     { rewrite <- app_assoc, cmds_of_app in Hok. apply all_ok_app in Hok as [_ H]. exact H. }
     destruct (recover_exact clen clen_pos im wf fs0 rs owner _ owner2 Hone Hsh Hv Hokc) as (evs & Hr & Hf & Hk).
-    exists evs. split; [exact Hr|]. split; [exact Hk|]. cbn [cs_all cs_cur]. rewrite Hf. split.
+    exists evs. split; [exact Hr|]. split; [exact Hk|]. cbn [cs_all cs_cur]. rewrite Hf.
+    split; [|split; [|split]].
     - apply (recovered_partial clen clen_pos). exact Hp.
     - intros Hn. apply no_pnew_writes; [|exact Hn]. apply (fexec_ok clen clen_pos); assumption.
+    - reflexivity.
+    - destruct Hsh as [_ _ _ (its & lo & _ & Hi & _) _]. exists lo. exact Hi.
   Qed.
 
   (** a WAL file that is still empty (created or truncated, status not yet written) is removed *)
@@ -121,10 +130,13 @@ Section WithClen.
     change (wal_size {| wf_status := None; wf_recs := [] |} <=? walStatusLenBytes) with true. cbn iota.
     eexists. split; [reflexivity|].
     rewrite apply_events_app. fold im0. cbn [apply_events fold_left apply_event i_wals i_files].
-    rewrite Hw0. cbn [aremove N.eqb map fst]. split; [reflexivity|]. rewrite Hf0. split.
+    rewrite Hw0. cbn [aremove N.eqb map fst]. split; [reflexivity|]. rewrite Hf0.
+    split; [|split; [|split]].
     - cbn [cs_all cs_cur]. pose proof (recovered_clean clen clen_pos (i_files im) all []) as H.
       rewrite app_nil_r in H. specialize (H Hc). cbn in H. exact H.
     - auto.
+    - reflexivity.
+    - exists 0. exact I.
   Qed.
 
   (** no WAL file at all (crash before NewWALFile's first call) *)
@@ -140,7 +152,7 @@ Section WithClen.
     { unfold im0. rewrite i_files_apply_events. apply fapplys_wal_only. reflexivity. }
     rewrite Hw0. cbn [map fst cleanup N.eqb Pos.eqb].
     eexists. split; [reflexivity|]. rewrite app_nil_r. fold im0. rewrite Hw0, Hf0, Hf.
-    split; [reflexivity|]. split; [|intros _ f; discriminate].
+    split; [reflexivity|]. split; [|split; [intros _ f; discriminate|split; [reflexivity|exists 0; exact I]]].
     constructor.
     - intros f s ix eof bl H. discriminate.
     - reflexivity.
